@@ -252,6 +252,7 @@ func runC18(c *vCtx, scratch string, idx int64, k c18Case, paceTotal time.Durati
 	a, b := net.Pipe()
 	done := make(chan error, 1)
 	go func() {
+		defer b.Close() // unblocks the feeder if handleConn gives up early
 		defer func() {
 			if p := recover(); p != nil {
 				done <- fmt.Errorf("PANIC: %v", p)
